@@ -1,7 +1,7 @@
 (* C19 — Every row-filter strategy round-trips every byte pattern.
    Only statements here; proofs live in Proofs/FilterProofs.v. *)
 From OxiVerif Require Import Base.Common Spec.Filter Model.Types Model.ScanLines Model.Filters Proofs.FilterProofs Proofs.FilterImage Proofs.FilterStream.
-From OxiVerif Require Import Spec.Adam7 Spec.Sem Spec.Decode Proofs.Bridge Proofs.LiftColor.
+From OxiVerif Require Import Spec.Adam7 Spec.Sem Spec.Decode Proofs.Bridge Proofs.LiftColor Proofs.UnfilterImage.
 
 (* The specification's own filter and reconstruction are inverse, for every filter type, pixel
    size and neighbour bytes (all lines, no length bound). *)
@@ -62,3 +62,16 @@ Theorem C19_stream_roundtrip : forall brute (img : image) f stream pic,
   spec_unfilter (width (hdr img)) (height (hdr img)) (bpp (hdr img)) (interlaced (hdr img)) stream = Some (data img).
 Proof. exact filter_image_stream. Qed.
 Print Assumptions C19_stream_roundtrip.
+
+(* FOREIGN FILES, whole images: whenever oxipng's own reconstruction (unfilter_image: scan lines with filter bytes, reference row
+   reset at every pass) accepts a filtered stream of the size the header implies, the specification's un-filtering of the
+   (possibly interlaced) image accepts it too and yields the same bytes - every size, pixel size and filter type per row *)
+Theorem C19_unfilter_image_is_spec : forall (hd : ihdr) (stream d : list Z),
+  1 <= width hd -> 1 <= height hd -> 1 <= bpp hd ->
+  depth_legal (spec_color_of (ctype hd)) (depth hd) = true ->
+  bytes_ok stream ->
+  lenZ stream = spec_raw_size (width hd) (height hd) (bpp hd) (interlaced hd) true ->
+  unfilter_image {| hdr := hd; data := stream |} = Ok d ->
+  spec_unfilter (width hd) (height hd) (bpp hd) (interlaced hd) stream = Some d.
+Proof. exact unfilter_image_is_spec. Qed.
+Print Assumptions C19_unfilter_image_is_spec.
